@@ -310,7 +310,7 @@ class Gen:
         return {"family": ("SONE%d" if seek else "ONE%d") % side, "flavour": flavour, "shape": shape, "base": base,
                 "base_side": base_side, "sched": sched, "expect": m.t}
 
-    def case_reuse(self, flavour, shape, side, nops, base_side=None):
+    def case_reuse(self, flavour, shape, side, nops, base_side=None, two_sided=False):
         """REUSE(side): one-sided history in which names vacated by a delete / rmdir / rename in an *earlier* window
         (i.e. the engine has been quiet since) are taken again - by a create, a mkdir, a file rename or a folder rename,
         of either type.  Exercises what the engine remembers about paths across quiet points (written-off entries)."""
@@ -321,6 +321,15 @@ class Gen:
         vacated, pending, chain = set(), set(), set()
         reused = 0
         pfx = "lr"[side]
+        # two_sided: both sides work, each on the top-level entries it owns (as in DISJ) and re-using only names below them
+        owner = {}
+        if two_sided:
+            for q in m.t:
+                owner.setdefault(top(q), rng.randrange(2))
+        side0 = side
+
+        def mine(q):
+            return not two_sided or owner.get(top(q), side) == side
 
         def quiet():
             if not sched or sched[-1] != ["Q"]:
@@ -330,17 +339,20 @@ class Gen:
             chain.clear()
 
         def fresh_path():
-            par = rng.choice([""] + [d for d in m.dirs() if d.count("/") < 3])
+            par = rng.choice([""] + [d for d in m.dirs() if d.count("/") < 3 and mine(d)])
             name = self.names.fresh(pfx)
             return (par + "/" + name) if par else name
 
         for _ in range(nops):
-            files = [f for f in m.files() if f not in chain]
-            dirs = [d for d in m.dirs() if d not in chain]
+            if two_sided:
+                side = rng.randrange(2)
+                pfx = "lr"[side]
+            files = [f for f in m.files() if f not in chain and mine(f)]
+            dirs = [d for d in m.dirs() if d not in chain and mine(d)]
             want_reuse = rng.random() < 0.6
-            if want_reuse and not [q for q in vacated if q not in m.t and m.parent_ok(q)] and pending:
+            if want_reuse and not [q for q in vacated if q not in m.t and m.parent_ok(q) and mine(q)] and pending:
                 quiet()
-            cands = sorted(q for q in vacated if q not in m.t and m.parent_ok(q))
+            cands = sorted(q for q in vacated if q not in m.t and m.parent_ok(q) and mine(q))
             op = None
             if want_reuse and cands:
                 q = rng.choice(cands)
@@ -359,7 +371,8 @@ class Gen:
                 reused += 1
             else:
                 kinds = ["create"] * 3 + ["mkdir"] * 2
-                if m.files():
+                myfiles = [f for f in m.files() if mine(f)]
+                if myfiles:
                     kinds += ["write"] * 2
                 if files:
                     kinds += ["delete"] * 4 + ["rename"] * 3
@@ -374,7 +387,7 @@ class Gen:
                 elif k == "mkdir":
                     op = {"side": side, "op": "mkdir", "path": fresh_path()}
                 elif k == "write":
-                    op = {"side": side, "op": "write", "path": rng.choice(m.files()), "data": self.contents.fresh(side)}
+                    op = {"side": side, "op": "write", "path": rng.choice(myfiles), "data": self.contents.fresh(side)}
                 elif k == "delete":
                     op = {"side": side, "op": "delete", "path": rng.choice(files)}
                 elif k == "rmdir":
@@ -398,6 +411,8 @@ class Gen:
                 op["obj"] = m.obj.get(op["path"])
                 assert m.apply(op), op
             sched.append(["U", op])
+            if two_sided:
+                owner.setdefault(top(op.get("to", op["path"])), side)
             vacated.discard(op.get("to", op["path"]))       # taken again: vacated anew only by a later op + quiet point
             if op["op"] in ("delete", "rmdir", "rename", "rendir"):
                 pending.add(op["path"])
@@ -412,8 +427,8 @@ class Gen:
                 sched.extend(gap)
                 if ["Q"] in gap:
                     quiet()
-        return {"family": "REUSE%d" % side, "flavour": flavour, "shape": shape, "base": base, "base_side": base_side,
-                "sched": sched, "expect": m.t, "reused": reused}
+        return {"family": "REUSE2" if two_sided else "REUSE%d" % side0, "flavour": flavour, "shape": shape, "base": base,
+                "base_side": base_side, "sched": sched, "expect": m.t, "reused": reused}
 
     def case_swap(self, flavour, shape, nops):
         """SWAP: one side exchanges the names of two (or rotates three) synchronised files through a temporary name inside
